@@ -36,6 +36,9 @@ C18_cells(o) == o.cellsok
 
 CallFailed(o) ==
   LET n == Norm(o) IN
+  IF o.op = "legacy"          \* the older driver has its own contract (clauses L_xxx, outside the listed properties)
+  THEN C!FailedLegacy(n) \cup (IF o.raised = "" THEN {} ELSE {"L_raised"})
+  ELSE
      C!FailedC07(n)
      \cup (IF C!C08_monitors(n) THEN {} ELSE {"C08_monitors"})
      \cup (IF C!C08_counters(n) THEN {} ELSE {"C08_counters"})
